@@ -1,6 +1,7 @@
 /-
   C18/Driver — line protocol front end (core-only).
     inject <k> <intry|free> <vars|-> <program>   a foreign panic injected at evaluation step k of the C01-language program
+    halt <k> <intry|free> <vars|-> <program>     an interrupt function that panics, delivered through the real channel at step k
     depth <L> <d> <leaf>            stack limit L, d nested script calls whose innermost enters further scopes (leaf kind)
     interrupt <shape>               a halting interrupt sent while a script spins
     depthseq <L> <k> <script|host>  k caught stack overflows in one Run, the admitted nesting probed after each
@@ -58,6 +59,15 @@ def handle (ws : List String) : String :=
           "escapes-or-caught;rest:ok;trace:any;follow:ok " ++ spec ++ " trycatch_foreign"
         else spec ++ " " ++ spec ++ " -"
     | _ => "bad-op"
+  | ["halt", _k, _where, _vars, prog] =>
+    match OttoVerif.C01.Driver.parseSX prog.toList with
+    | some (.node "P" _, []) =>
+      -- Theorems.halt_not_caught / halt_through_call / halt_skips_rest / halt_escapes: no try statement ends
+      -- the halt (runtime.go `interrupt` + tryCatchEvaluate), every call on the way leaves its scope, nothing
+      -- else runs – inside a try block or not
+      let spec := "escapes;rest:ok;trace:exact-prefix;follow:ok"
+      spec ++ " " ++ spec ++ " -"
+    | _ => "bad-op"
   | "depth" :: l :: d :: leaf :: rest =>
     -- d script calls, the innermost of which enters `extra` further nested scopes (a native function,
     -- a native calling back into script, call/apply + target, constructors, getters, eval …): a chain of
@@ -103,7 +113,7 @@ def handle (ws : List String) : String :=
     -- (labels_rest_any_sem) and the pending ones are put back (fact poll_keeps_labels)
     let t := "same;trace:same;rest:ok;follow:ok"; t ++ " " ++ t ++ " -"
   | ["interrupt", _shape, "free"] => "halted;rest:ok;follow:ok;again:halted halted;rest:ok;follow:ok;again:halted -"
-  | ["interrupt", _shape, "intry"] => "halted-or-caught;rest:ok;follow:ok;again:halted halted;rest:ok;follow:ok;again:halted trycatch_foreign"
+  | ["interrupt", _shape, "intry"] => "halted;rest:ok;follow:ok;again:halted halted;rest:ok;follow:ok;again:halted -"
   | _ => "bad-op"
 
 end OttoVerif.C18.Driver
